@@ -704,6 +704,37 @@ def enumerate_cases(tier, shard, nshards, seed):
                     if k % nshards == shard and mode in MODES_SET:
                         yield {'mode': mode, 'frag': frag, 'sel': seed + k, 'synthetic': True}
 
+    # sequences with a multi-line element that is not the first one, followed on its closing line by further elements (order of the merged
+    # positional / keyword lists, positions after a multi-line element)
+    pos_el = ('a', 'g(\n x\n)', '[1,\n 2]', '*s', 'é')
+    kw_el = ('k=1', 'm={\n 1: 2,\n}', '**d')
+
+    for n in (2, 3, 4):
+        for combo in itertools.product(pos_el + kw_el, repeat=n):
+            if not any('\n' in e for e in combo[:-1]) and n > 2:
+                continue
+
+            body = ', '.join(combo)
+
+            try:
+                ast.parse(f'f({body})')
+            except SyntaxError:
+                continue
+
+            k += 1
+
+            if k % nshards != shard:
+                continue
+
+            yield {'mode': '_arglikes', 'frag': body, 'sel': seed + k, 'synthetic': True}
+
+            if all(e in pos_el for e in combo):
+                for mode in ('expr', 'Tuple', 'expr_slice', '_withitems', '_decorator_list'):
+                    frag = body if mode != '_decorator_list' else '\n'.join('@' + e for e in combo if not e.startswith('*'))
+
+                    if mode in MODES_SET and frag:
+                        yield {'mode': mode, 'frag': frag, 'sel': seed + k, 'synthetic': True}
+
     snips = gen.snippets()
 
     for j in range(shard, len(snips), nshards * (4 if tier == 'quick' else 1)):
